@@ -196,7 +196,14 @@ func genPkgCase(r *rand.Rand) *pkgCase {
 						spec["config"] = mutateTree(r, map[string]any{"openAPIV3Schema": map[string]any{"type": "object", "required": []any{"name"}, "properties": map[string]any{
 							"name": map[string]any{"type": "string", "default": "x", "pattern": "("}, "replicas": map[string]any{"type": "integer", "default": "three", "minimum": 1},
 							"nested": map[string]any{"type": "object", "default": map[string]any{"a": 1}, "properties": map[string]any{"a": map[string]any{"type": "string", "default": 5}}},
-							"list":   map[string]any{"type": "array", "items": map[string]any{"type": "integer"}, "default": []any{"x"}}}}}, 2)
+							"list":   map[string]any{"type": "array", "items": map[string]any{"type": "integer"}, "default": []any{"x"}},
+							"ref":    map[string]any{"$ref": []string{"%", "#/definitions/x", "", "http://[::1", "x y"}[r.Intn(5)]},
+							"any":    map[string]any{"x-kubernetes-preserve-unknown-fields": true, "x-kubernetes-int-or-string": true, "anyOf": []any{map[string]any{"type": "integer"}, map[string]any{"type": "string"}}},
+							"neg":    map[string]any{"not": map[string]any{"type": "string"}, "oneOf": []any{}, "additionalProperties": map[string]any{"type": "nope"}}}}}, 2)
+						if r.Intn(2) == 0 {
+							tree["test"] = map[string]any{"template": []any{map[string]any{"name": "t1", "context": map[string]any{
+								"package": map[string]any{"metadata": map[string]any{"name": "n", "namespace": "ns"}}, "config": map[string]any{"name": "x", "flagA": true}}}}}
+						}
 					case 3:
 						spec["availabilityProbes"] = mutateTree(r, []any{map[string]any{"selector": map[string]any{"kind": map[string]any{"group": "apps", "kind": "Deployment"}, "selector": map[string]any{"matchExpressions": []any{map[string]any{"key": "a", "operator": "In", "values": []any{"b"}}}}},
 							"probes": []any{map[string]any{"condition": map[string]any{"type": "Available", "status": "True"}}, map[string]any{"fieldsEqual": map[string]any{"fieldA": ".a", "fieldB": ".b"}}, map[string]any{"cel": map[string]any{"rule": "self.x", "message": "m"}}}}}, 2)
